@@ -193,6 +193,10 @@ func genCfgCase(r *Rng, keys []cfgKey) *cfgCase {
 			}
 		}
 	}
+	// tokens that are not key=value at all (no '=' or more than one) are not arguments: they are skipped wherever they stand
+	for i, n := 0, r.Range(0, 2); i < n; i++ {
+		c.Unknown = append(c.Unknown, pickS(r, []string{"verbose", "-x", "note=a=b", "Latitude", "=", "ETpot=3=4"}))
+	}
 	for i, n := 0, r.Range(0, 3); i < n; i++ {
 		c.Unknown = append(c.Unknown, pickS(r, []string{"NoSuchKey", "dateformat", "ETPOT", "Latitude2", "endDate", "Config", "x"})+strconv.Itoa(i)+"="+pickS(r, []string{"1", "abc", "3.5", "on"}))
 	}
